@@ -24,6 +24,7 @@ import WinterProofs.Lemmas.C10Bind
 import WinterProofs.C19
 import WinterProofs.Lemmas.C03Parse
 import WinterProofs.Lemmas.C01
+import WinterProofs.Lemmas.RefVDraw
 
 namespace WinterProofs.RefVerifier
 open Model Model.VerifierChecks Model.RefVerifier
@@ -482,6 +483,42 @@ theorem challenges_panic_site (W : Verifier C D V) (ctx : Serde.Context) (cm : C
                   · cases h
                   · cases h
 
+/-- a panic of the challenge phase is the missing first trace commitment or a panic of the auxiliary-segment phase -/
+theorem challenges_panic_cases (W : Verifier C D V) (ctx : Serde.Context) (cm : Committed V D) (s : String)
+    (h : challenges W ctx cm = .error (.panic s)) :
+    cm.traceRoots = [] ∨ ∃ r0 rest, cm.traceRoots = r0 :: rest ∧
+      auxPhase W.coin (W.air ctx) cm (W.coin.reseed (W.coin.new (coinSeed W.elemBytes ctx W.pubElems)) r0) r0 rest
+        = .error (.panic s) := by
+  unfold challenges at h
+  simp only at h
+  split at h
+  · rename_i hnil; exact Or.inl hnil
+  · rename_i r0 rest hroots
+    refine Or.inr ⟨r0, rest, hroots, ?_⟩
+    split at h
+    · rename_i e he
+      injection h with h
+      subst h
+      exact he
+    · split at h
+      · cases h
+      · split at h
+        · cases h
+        · split at h
+          · cases h
+          · split at h
+            · cases h
+            · split at h
+              · rename_i e he
+                injection h with h
+                subst h
+                exact absurd he (friNew_no_panic _ _ _ _ _ _ _ s)
+              · split at h
+                · cases h
+                · split at h
+                  · cases h
+                  · cases h
+
 theorem friRemainder_no_panic (W : Verifier C D V) (A : AirInst C D V) (roots : List D) (rem : List V)
     (numLayers : Nat) (pos : List Nat) (ev : List V) (dom md : Nat) (s : String) :
     friRemainder W A roots rem numLayers pos ev dom md ≠ .error (.panic s) := by
@@ -556,13 +593,16 @@ theorem drawInts_lt (J : Inst) (E : EOps) (c : Coin.Coin Dg) (n dom nonce : Nat)
     exact (C19.drawIntegers_ok (hashOps J) n dom nonce c _ c' hd).1
   · cases h
 
-/-- after the front end has passed, the decision function reaches none of its index sites: its only panic outcome
-    is the `expect` on the auxiliary random elements -/
-theorem core_no_panic (J : Inst) (d : Desc) (pubs : List Nat) (acc : Acceptable) (bs : List Nat) (hb : BytesOk bs)
+/-- after the front end has passed, the decision function reaches none of its index sites: a panic outcome is a panic
+    of the challenge phase, and there is a commitment for every trace segment -/
+theorem core_panic_is_challenge (J : Inst) (d : Desc) (pubs : List Nat) (acc : Acceptable) (bs : List Nat) (hb : BytesOk bs)
     (p : Serde.Proof) (ncols : Nat) (E : EOps) (c : ParsedChannel) (hf : FrontPassed J d pubs acc bs p ncols E c)
     (s : String)
     (hv : VerifierChecks.verify (mkVerifier J E d pubs acc) p.context (some (committedOf J c, openedOf J c))
-      = .error (.panic s)) : s = "get_aux_rand_elements" := by
+      = .error (.panic s)) :
+    challenges (mkVerifier J E d pubs acc) p.context (committedOf J c) = .error (.panic s) ∧
+    (committedOf J c).traceRoots ≠ [] ∧
+    (((mkVerifier J E d pubs acc).air p.context).multiSegment = true → 2 ≤ (committedOf J c).traceRoots.length) := by
   have hpok := (parseProof_invariants bs hb p hf.parsed).1
   obtain ⟨hctx, _, _, _, _⟩ := hpok
   obtain ⟨_, _, hpl, hn8⟩ := ti_facts _ hctx.1
@@ -579,7 +619,7 @@ theorem core_no_panic (J : Inst) (d : Desc) (pubs : List Nat) (acc : Acceptable)
   have hn : ti.length = 2 ^ ti.length.log2 := pow2_eq hpl
   rcases verify_panic_cases _ _ _ _ s hv with hch | ⟨ch, hch, hloop⟩
   · -- the challenge phase
-    refine challenges_panic_site (mkVerifier J E d pubs acc) p.context (committedOf J c) ?_ ?_ s hch
+    refine ⟨hch, ?_, ?_⟩
     · intro hnil
       have : (committedOf J c).traceRoots.length = 0 := by rw [hnil]; rfl
       simp only [committedOf, List.length_map] at this
@@ -664,6 +704,80 @@ theorem core_no_panic (J : Inst) (d : Desc) (pubs : List Nat) (acc : Acceptable)
       simp only [committedOf, List.length_map]
       omega
 
+/-- after the front end has passed, the only panic outcome of the decision function is the `expect` on the auxiliary
+    random elements -/
+theorem core_no_panic (J : Inst) (d : Desc) (pubs : List Nat) (acc : Acceptable) (bs : List Nat) (hb : BytesOk bs)
+    (p : Serde.Proof) (ncols : Nat) (E : EOps) (c : ParsedChannel) (hf : FrontPassed J d pubs acc bs p ncols E c)
+    (s : String)
+    (hv : VerifierChecks.verify (mkVerifier J E d pubs acc) p.context (some (committedOf J c, openedOf J c))
+      = .error (.panic s)) : s = "get_aux_rand_elements" := by
+  obtain ⟨hch, h1, h2⟩ := core_panic_is_challenge J d pubs acc bs hb p ncols E c hf s hv
+  exact challenges_panic_site _ _ _ h1 h2 s hch
+
+theorem extOps_deg (J : Inst) (ext : Nat) (E : EOps) (h : extOps J ext = some E) : 1 ≤ E.deg ∧ E.deg ≤ 3 := by
+  unfold extOps at h
+  split at h
+  · injection h with h; subst h; exact ⟨Nat.le_refl 1, by show 1 ≤ 3; omega⟩
+  · split at h
+    · injection h with h; subst h; exact ⟨by show 1 ≤ 2; omega, by show 2 ≤ 3; omega⟩
+    · split at h
+      · injection h with h; subst h; exact ⟨by show 1 ≤ 3; omega, Nat.le_refl 3⟩
+      · cases h
+
+/-- with a coin whose draws cannot fail (`DrawTotal`: the instantiations over the 64-bit field) the auxiliary-segment
+    phase of the concrete verifier does not panic: the GKR verifier draws at most 64 elements, then at most 255
+    auxiliary random elements are drawn, from a coin whose counter started at 0 -/
+theorem auxPhase_no_panic_drawTotal (J : Inst) (hD : DrawTotal J) (E : EOps) (hE1 : 1 ≤ E.deg) (hE3 : E.deg ≤ 3)
+    (d : Desc) (pubs : List Nat) (ctx : Serde.Context) (hr : ctx.traceInfo.rands ≤ 255)
+    (cm : Committed El Dg) (c0 : Coin.Coin Dg) (r0 : Dg) (rest : List Dg)
+    (h2 : (airInst J E d pubs ctx).multiSegment = true → rest ≠ []) (s : String) :
+    auxPhase (coinOps J E) (airInst J E d pubs ctx) cm ((coinOps J E).reseed c0 r0) r0 rest ≠ .error (.panic s) := by
+  intro h
+  have hc1 : ((coinOps J E).reseed c0 r0).counter = 0 := rfl
+  have hU : Coin.U64 = 18446744073709551616 := rfl
+  unfold auxPhase at h
+  rw [airInst_numAuxRands] at h
+  split at h
+  · cases h
+  · rename_i hm
+    have hm' : (airInst J E d pubs ctx).multiSegment = true := by simpa using hm
+    split at h
+    · exact absurd rfl (h2 hm')
+    · split at h
+      · -- Lagrange kernel column: the GKR verifier first
+        split at h
+        · cases h
+        · rename_i g hg
+          split at h
+          · cases h
+          · rename_i lag cg hgv
+            have hcg : cg.counter ≤ 64 := by
+              simp only [airInst] at hgv
+              unfold gkrVerify at hgv
+              split at hgv
+              · cases hgv
+              · rename_i k hk
+                split at hgv
+                · cases hgv
+                · rename_i hk64
+                  obtain ⟨vs, hvs⟩ := drawMany_total J hD E hE1 hE3 k ((coinOps J E).reseed c0 r0) (by rw [hc1, hU]; omega)
+                  rw [hvs] at hgv
+                  simp only [] at hgv
+                  split at hgv
+                  · injection hgv with hgv
+                    simp only [Prod.mk.injEq] at hgv
+                    rw [← hgv.2]
+                    show ((coinOps J E).reseed c0 r0).counter + k ≤ 64
+                    rw [hc1]; omega
+                  · cases hgv
+            obtain ⟨vs, hvs⟩ := drawMany_total J hD E hE1 hE3 ctx.traceInfo.rands cg (by rw [hU]; omega)
+            rw [hvs] at h
+            cases h
+      · obtain ⟨vs, hvs⟩ := drawMany_total J hD E hE1 hE3 ctx.traceInfo.rands ((coinOps J E).reseed c0 r0)
+          (by rw [hc1, hU]; omega)
+        rw [hvs] at h
+        cases h
+
 /-- **the full statement holds**: for every byte string, the only panic verdicts of the reference verifier are the
     panics of the real code: on a trace shape the computation does not fit, and the `expect` on the auxiliary random
     elements -/
@@ -685,6 +799,48 @@ theorem refVerify_never_panics (J : Inst) (hJ : InstOk J) (d : Desc)
     (pubs : List Nat) (acc : Acceptable) (bs : List Nat) (hb : BytesOk bs) (s : String)
     (h : refVerify J d pubs acc bs = .err (.panic s)) : RealPanic s :=
   refVerifyTotal J hJ d hcols pubs acc bs s hb h
+
+/-- **the coin's `expect` excluded**: for an instantiation whose draws cannot fail (`DrawTotal`, proved for the two
+    instantiations over the 64-bit field - `drawTotal_rp64`, `drawTotal_rpjive`: `from_random_bytes` accepts the bytes
+    of EVERY digest of four canonical 64-bit elements, whatever the hash values) the only panic verdicts are the two
+    panics of the real code on a trace shape the computation does not fit.  (For Rp62_248 `DrawTotal` does not
+    hold: rejection sampling is real there - see WinterProofs/Lemmas/RefVDraw.lean - and 1000 consecutive rejections
+    cannot be excluded without an assumption on the hash values.) -/
+theorem refVerify_never_panics_drawTotal (J : Inst) (hJ : InstOk J) (hD : DrawTotal J) (d : Desc)
+    (hcols : ∀ ti o n, airNew (frontAir J d) ti o = some n → n ≤ 255)
+    (pubs : List Nat) (acc : Acceptable) (bs : List Nat) (hb : BytesOk bs) (s : String)
+    (h : refVerify J d pubs acc bs = .err (.panic s)) : s = "AIR::new" ∨ s = "evaluate_constraints" := by
+  rcases refVerify_never_panics_partial J hJ d pubs acc bs hb hcols s h with h1 | h2 | ⟨p, ncols, E, c, hf, hv⟩
+  · exact Or.inl h1
+  · exact Or.inr h2
+  · exfalso
+    obtain ⟨hch, hr1, hr2⟩ := core_panic_is_challenge J d pubs acc bs hb p ncols E c hf s hv
+    obtain ⟨hE1, hE3⟩ := extOps_deg J _ E hf.ext
+    have hpok := (parseProof_invariants bs hb p hf.parsed).1
+    have hrands : p.context.traceInfo.rands ≤ 255 := by
+      have := hpok.1.1
+      simp only [Serde.TraceInfo.wf, Bool.and_eq_true, decide_eq_true_eq] at this
+      have h8 := this.2
+      simp only [Gen.Limits.MAX_RAND_SEGMENT_ELEMENTS] at h8
+      exact h8
+    rcases challenges_panic_cases _ _ _ s hch with hnil | ⟨r0, rest, hroots, haux⟩
+    · exact hr1 hnil
+    · rw [air_eq] at haux hr2
+      refine auxPhase_no_panic_drawTotal J hD E hE1 hE3 d pubs p.context hrands (committedOf J c) _ r0 rest ?_ s haux
+      intro hm
+      have := hr2 hm
+      rw [hroots] at this
+      intro hr; subst hr; simp at this
+
+theorem refVerify_never_panics_rp64 (d : Desc) (hcols : ∀ ti o n, airNew (frontAir Inst.rp64 d) ti o = some n → n ≤ 255)
+    (pubs : List Nat) (acc : Acceptable) (bs : List Nat) (hb : BytesOk bs) (s : String)
+    (h : refVerify Inst.rp64 d pubs acc bs = .err (.panic s)) : s = "AIR::new" ∨ s = "evaluate_constraints" :=
+  refVerify_never_panics_drawTotal _ instOk_rp64 drawTotal_rp64 d hcols pubs acc bs hb s h
+
+theorem refVerify_never_panics_rpjive (d : Desc) (hcols : ∀ ti o n, airNew (frontAir Inst.rpjive d) ti o = some n → n ≤ 255)
+    (pubs : List Nat) (acc : Acceptable) (bs : List Nat) (hb : BytesOk bs) (s : String)
+    (h : refVerify Inst.rpjive d pubs acc bs = .err (.panic s)) : s = "AIR::new" ∨ s = "evaluate_constraints" :=
+  refVerify_never_panics_drawTotal _ instOk_rpjive drawTotal_rpjive d hcols pubs acc bs hb s h
 
 -- the hypothesis is satisfiable, and both shape panics occur (`refVerify_airnew_witness`; `evaluate_constraints`:
 -- the thorough `refv` runs contain proofs whose mutated trace length keeps the channel consistent)
